@@ -18,6 +18,7 @@ Driver for C44. Substreams (see harness/main/c44.go):
   sess <0|1|panic>
   pack <pid> <phase> <evpos> <hdrbytes> <listerr> <t:num:len:ulen>...
   idx <iid> <phase> <evpos> <pid>...
+  early <pid>...             packs the master index already listed when their upload started
   ent <handle> <pid>...      ent2 <handle> <pid>...
 -/
 open Driver Restic.Model.Packer
@@ -244,6 +245,8 @@ def handleRepo (c : Case) : Verdict :=
     match badOrder with
     | some p => .specfalse "C44:repo:pack-not-indexed-after-upload" p.pid
     | none =>
+    if ((c.find "early").map (·.size)).getD 1 > 1 then
+      .specfalse "C44:repo:indexed-before-upload" s!"{(c.find "early").map (·.toList.drop 1)}" else
     if idxs.any (fun r => (r.toList.drop 4).contains "undecodable") then .specfalse "C44:repo:index-undecodable" "" else
     -- (4) no type mix, no add after full, header bound
     if packs.any (fun p => !(p.blobs.all fun b => some b.tpe == (p.blobs.head?.map (·.tpe)))) then .specfalse "C44:repo:type-mix" "" else
